@@ -69,7 +69,9 @@ Lemma init_inv2 : forall bi ns p, star_free bi ns = true ->
   exists exp l0, l_own l0 = [] /\ l_B l0 = binds_block false p /\
     fst (init_state bi ns) = stack_of [l0] /\
     Inv2 exp l0 [] [] [] [] (snd (init_state bi ns)) [module_frame bi ns p] [] /\
-    missing (snd (init_state bi ns)) = [].
+    missing (snd (init_state bi ns)) = [] /\
+    scope_dict (snd (init_state bi ns)) (l_b l0) = [] /\ deferred (snd (init_state bi ns)) = [] /\
+    (forall y, In y (l_P l0) -> In y (bi ++ concat ns)).
 Proof.
   intros bi ns p Hsf. unfold star_free in Hsf. apply andb_true_iff in Hsf as [Hsb Hsn]. apply negb_true_iff in Hsb.
   unfold init_state.
@@ -107,7 +109,7 @@ Proof.
   assert (Hhas : forall i x, has s2 i x = if Nat.eqb i T then false else has s1 i x).
   { intros i x. unfold has. rewrite Hsd. destruct (Nat.eqb i T); reflexivity. }
   assert (HTids : ~ In T ids). { intro H. destruct (Hlt1 T H). unfold T in *. lia. }
-  split; [|congruence].
+  split; [|split; [congruence|split; [rewrite Hsd, Nat.eqb_refl; reflexivity|split; [congruence|auto]]]].
   constructor.
   - constructor.
     + apply SInv_new; auto. intros k e []. intros r q Hq. cbn in Hq. congruence.
@@ -191,7 +193,7 @@ Lemma s2_reported : forall bi ns p, s2_block p = true -> star_free bi ns = true 
     forall l n, (exists a, In (l, n :: a) (fst (finder bi ns false p))) <-> Rep exp s l n.
 Proof.
   intros bi ns p Hp Hsf.
-  destruct (init_inv2 bi ns p Hsf) as (exp0 & l0 & Hown & HB & Estk & HI & Hm0).
+  destruct (init_inv2 bi ns p Hsf) as (exp0 & l0 & Hown & HB & Estk & HI & Hm0 & _).
   assert (Hiff : forall l d, In (l, d) (fst (finder bi ns false p)) <->
                              InM l d (missing (scan_node false p (fst (init_state bi ns)) (snd (init_state bi ns)))))
     by (intros; apply finder_missing_In).
